@@ -62,6 +62,7 @@ type Transform struct {
 	Idx  int    `json:"idx"`
 	Perm []int  `json:"perm"`
 	Tags Tags   `json:"tags"`
+	To   int    `json:"to"` // redir: the user type the reference goes to
 }
 type Step struct {
 	Side string `json:"side"`
@@ -471,14 +472,75 @@ func ensureValidation(att *expr.AttributeExpr) *expr.ValidationExpr {
 
 // ---- transformations of the hash direction ---------------------------------------------------------
 
+// cloneGraph copies the canonical graph (the node and attribute slices; the slices inside an attribute are
+// never written).
+func cloneGraph(g Graph) Graph {
+	c := Graph{Root: g.Root, Nodes: make([]Node, len(g.Nodes))}
+	for i, nd := range g.Nodes {
+		c.Nodes[i] = Node{Kind: nd.Kind, Name: nd.Name, Attrs: append([]Attr(nil), nd.Attrs...)}
+	}
+	return c
+}
+
+func isUserKind(k string) bool { return k == "user" || k == "result" }
+
+// reshare applies one of the transformations that change which references lead to the very same user
+// type (TypeGraph!ApplyT: unshare, hollow, redir) to the canonical graph; new nodes go to the end.
+func reshare(g Graph, t Transform) Graph {
+	c := cloneGraph(g)
+	if t.Node < 1 || t.Node > len(c.Nodes) || t.Idx < 1 || t.Idx > len(c.Nodes[t.Node-1].Attrs) {
+		vio.Die("%s: no attribute %d in node %d", t.Op, t.Idx, t.Node)
+	}
+	u := c.Nodes[t.Node-1].Attrs[t.Idx-1].Ref.N
+	if u < 1 || !isUserKind(c.Nodes[u-1].Kind) {
+		vio.Die("%s: attribute %d of node %d does not refer to a user type", t.Op, t.Idx, t.Node)
+	}
+	var copyAnon func(r Ref) Ref // arrays, maps, objects, unions get a node of their own; leaves and user types stay
+	copyAnon = func(r Ref) Ref {
+		if r.N == 0 || isUserKind(c.Nodes[r.N-1].Kind) {
+			return r
+		}
+		src := c.Nodes[r.N-1]
+		c.Nodes = append(c.Nodes, Node{Kind: src.Kind, Name: src.Name})
+		id := len(c.Nodes)
+		attrs := make([]Attr, len(src.Attrs))
+		for i, a := range src.Attrs {
+			attrs[i] = a
+			attrs[i].Ref = copyAnon(a.Ref)
+		}
+		c.Nodes[id-1].Attrs = attrs
+		return Ref{P: "-", N: id}
+	}
+	own := c.Nodes[u-1].Attrs[0]
+	id := len(c.Nodes) + 1
+	switch t.Op {
+	case "unshare": // a type of its own, "Z", with the same definition
+		c.Nodes = append(c.Nodes, Node{Kind: c.Nodes[u-1].Kind, Name: "Z"})
+		own.Ref = copyAnon(own.Ref)
+		c.Nodes[id-1].Attrs = []Attr{own}
+	case "hollow": // a new type "Z" defined as an object without attributes
+		own.Ref = Ref{P: "-", N: id + 1}
+		c.Nodes = append(c.Nodes, Node{Kind: c.Nodes[u-1].Kind, Name: "Z", Attrs: []Attr{own}}, Node{Kind: "object", Attrs: []Attr{}})
+	case "redir": // another user type of the graph
+		if t.To < 1 || t.To > len(c.Nodes) || !isUserKind(c.Nodes[t.To-1].Kind) {
+			vio.Die("redir: node %d is not a user type", t.To)
+		}
+		id = t.To
+	}
+	c.Nodes[t.Node-1].Attrs[t.Idx-1].Ref = Ref{P: "-", N: id}
+	return c
+}
+
 // transform builds a second instance of g and applies t to it (copy/copyatt: to the first instance
-// through the real Dup / DupAtt).
+// through the real Dup / DupAtt; the sharing transformations: to the canonical graph, which is then built).
 func transform(g Graph, orig *built, t Transform) expr.DataType {
 	switch t.Op {
 	case "copy":
 		return expr.Dup(orig.root)
 	case "copyatt":
 		return expr.DupAtt(&expr.AttributeExpr{Type: orig.root}).Type
+	case "unshare", "hollow", "redir":
+		return build(reshare(g, t)).root
 	}
 	b := build(g)
 	var dt expr.DataType
